@@ -4,7 +4,7 @@
 Writes seeded/<id>/confirm.json. Usage: confirm_seeded.py [ids...]"""
 import os, sys, glob, json, subprocess, shutil, re, time
 HERE = os.path.dirname(os.path.dirname(os.path.abspath(__file__)))
-WT = '/tmp/wt-confirm'
+WT = os.environ.get('CONFIRM_WT', '/tmp/wt-confirm')
 ENV = dict(os.environ, CARGO_TARGET_DIR=WT + '/target', CARGO_NET_OFFLINE='true', RUST_BACKTRACE='0')
 
 def sh(cmd, **kw):
@@ -39,7 +39,7 @@ def place_demo(d, name):
         return f'{build} && rm -rf {WT}/_demo_db && {WT}/target/debug/risinglight {WT}/_demo_db -f {d}/demo.slt', lambda: shutil.rmtree(os.path.join(WT, '_demo_db'), ignore_errors=True)
     demo = open(os.path.join(d, 'demo.rs')).read()
     m = re.search(r'(src/\S+?\.rs)', '\n'.join(demo.split('\n')[:6]))
-    if name.startswith('C06') and m and 'append' in '\n'.join(demo.split('\n')[:6]).lower() and name not in ('C06-1', 'C06-2', 'C06-3', 'C06-4', 'C06-5', 'C06-6'):
+    if (name.startswith('C06') or int(name.split('-')[1]) >= 17) and m and 'append' in '\n'.join(demo.split('\n')[:6]).lower() and name not in ('C06-1', 'C06-2', 'C06-3', 'C06-4', 'C06-5', 'C06-6'):
         target, filt = m.group(1), re.search(r'^mod (\w+)', demo, flags=re.M).group(1)
         open(os.path.join(WT, target), 'a').write('\n' + demo)
         return f'cargo test --offline -j 8 --lib {filt}', lambda: sh(f'git checkout -- {target}')
